@@ -230,9 +230,11 @@ func (state *Runtime) MustResolve(name string) reflect.Value {
 }
 
 func (st *Runtime) recover(err *error) {
-	// reset state scope and context just to be safe (they might not be cleared properly if there was a panic while using the state)
+	// reset state scope, context and content just to be safe (they might not be cleared properly if there was a panic while using the state)
 	st.scope = &scope{}
 	st.context = reflect.Value{}
+	st.content = nil
+	st.Writer = nil // do not keep the writer alive through the pool
 	pool_State.Put(st)
 	if recovered := recover(); recovered != nil {
 		var ok bool
